@@ -1470,6 +1470,11 @@ func (c *compiler) compileArray(e *Array) error {
 			(i < l-1 && c.codes[pc+i*2+l+1].op != opjump) {
 			return nil
 		}
+		// the forks and jumps should be those of the comma operators between the elements
+		if (i > 0 && c.codes[pc+i].v.(int) != pc+(l-i)*2+l) ||
+			(i < l-1 && c.codes[pc+i*2+l+1].v.(int) != pc+i*2+l+3) {
+			return nil
+		}
 	}
 	v := make([]any, l)
 	for i := range l {
